@@ -17,9 +17,10 @@ Props/C14 show that for 0 ≤ d ≤ MaxInt64 no intermediate value leaves the in
 (`deadline_no_wrap`, `no_int64_overflow`), which is what makes the unbounded model faithful.
 
 Timing assumptions (the *partial* part of C14): `time.Sleep(clockPeriod)` followed by re-taking the
-mutex returns after at least `period` and at most `period + eps`; `eps` is a parameter.  The three
-critical sections of makeDeadline/extendClock are executed as one atomic event in this file;
-Model/ClockConc.lean executes them step by step under arbitrary interleaving.
+mutex returns after at least `period` and at most `period + eps`; `eps` is a parameter.  A whole
+makeDeadline call (two lock-free atomic reads, then one critical section) is one atomic event in this
+file; Model/ClockConc.lean executes it step by step under arbitrary interleaving, and
+Props.C14.conc_sequential_eq shows that the steps of a call executed in a row are this event.
 -/
 namespace RegexVerif.Clock
 
